@@ -89,6 +89,7 @@ impl World {
     let mut child = self.command(args).spawn()?;
     let t0 = std::time::Instant::now();
     let mut mined = 0;
+    let mut started = false;
     let mut last_mine = std::time::Instant::now();
     loop {
       if child.try_wait()?.is_some() {
@@ -107,7 +108,11 @@ impl World {
           json: Value::Null,
         });
       }
-      if mined < max_blocks && last_mine.elapsed() > std::time::Duration::from_millis(600) {
+      // blocks are mined only once the command has broadcast something (a slow start must not use them up)
+      if !started && !self.core.state().mempool.is_empty() {
+        started = true;
+      }
+      if started && mined < max_blocks && last_mine.elapsed() > std::time::Duration::from_millis(600) {
         self.mine(1)?;
         mined += 1;
         last_mine = std::time::Instant::now();
@@ -1207,8 +1212,18 @@ impl Ctx {
     }
     // same-sat on a chosen satpoint: a cardinal output, or (reinscribe) the sat of an inscription the wallet holds
     let mut subject: Option<OutPoint> = None;
+    let mut subject_sat_named: Option<u64> = None;
     if mode == "same-sat" && !etch {
-      match self.rng.gen_range(0..4) {
+      match self.rng.gen_range(0..5) {
+        4 if !bs.small.is_empty() => {
+          // name the sat itself: the first sat of a small cardinal output
+          let o = bs.small.remove(0);
+          if let Some(n) = self.w.get_json(&format!("/output/{o}"))?["sat_ranges"].as_array().and_then(|r| r.first()).and_then(|r| r[0].as_u64()) {
+            yaml.push_str(&format!("sat: {n}\n"));
+            subject = Some(o);
+            subject_sat_named = Some(n);
+          }
+        }
         0 if !bs.small.is_empty() => {
           let o = bs.small.remove(0);
           yaml.push_str(&format!("satpoint: {o}:0\n"));
@@ -1271,10 +1286,10 @@ impl Ctx {
     let path = self.w.data.path().join(format!("batch{n_op}.yaml"));
     std::fs::write(&path, &yaml)?;
     // the sat the batch was told to inscribe (first sat of the chosen satpoint), from the explorer's sat ranges
-    let subject_sat: Option<u64> = match subject {
+    let subject_sat: Option<u64> = if subject_sat_named.is_some() { subject_sat_named } else { match subject {
       Some(o) => self.w.get_json(&format!("/output/{o}"))?["sat_ranges"].as_array().and_then(|r| r.first()).and_then(|r| r[0].as_u64()),
       None => None,
-    };
+    } };
     // before
     let (inv, utxos_before) = self.inventory()?;
     let non_cardinal: std::collections::BTreeSet<OutPoint> = utxos_before
